@@ -424,6 +424,26 @@ def prove(prop_file, allowed_axioms, timeout=1500):
     return res
 
 
+
+def coqchk(prop_file, timeout=1800):
+    """thorough tier: re-check the compiled Props file and everything it
+    depends on with the independent checker; returns (ok, axioms listed, log tail)"""
+    with Lock("coq"):
+        rc, out = sh(["coqchk", "-o", "-silent", "-Q", ".", "VV", "VV.Props." + prop_file], cwd=COQ, timeout=timeout)
+    axioms = []
+    grab = False
+    for l in out.splitlines():
+        if l.strip().startswith("* Axioms:"):
+            grab = True
+            continue
+        if grab:
+            if l.strip().startswith("*"):
+                grab = False
+            elif l.strip():
+                axioms.append(l.strip())
+    return rc == 0, axioms, out[-1500:]
+
+
 def ocaml_model(name, timeout=900):
     """Extract/<Name>Extract.v writes <name>_model.ml(i) into coq/; build
     ocaml/<name>_driver.ml with it.  Returns path of the executable."""
